@@ -58,10 +58,84 @@ _echo_tls = threading.local()
 _click_patched = False
 
 
+class _StreamProxy:
+    """sys.stdout / sys.stderr as seen by code under test: inside run_cli (per THREAD) whatever is written is captured line by
+    line -- click.echo is not the only way a command can report (ClickException.show(), print, sys.stderr.write) --, outside
+    it goes to the real stream."""
+
+    def __init__(self, real, kind):
+        self._real = real
+        self._kind = kind
+
+    def write(self, s):
+        buf = getattr(_echo_tls, "buf", None)
+        if buf is None:
+            return self._real.write(s)
+        if isinstance(s, (bytes, bytearray)):
+            s = bytes(s).decode("utf-8", "replace")
+        pend = getattr(_echo_tls, "pend", None)
+        if pend is None:
+            pend = _echo_tls.pend = {"out": "", "err": ""}
+        text = pend[self._kind] + s
+        *lines, rest = text.split("\n")
+        for ln in lines:
+            buf.append((self._kind, ln))
+        pend[self._kind] = rest
+        return len(s)
+
+    def writelines(self, lines):
+        for ln in lines:
+            self.write(ln)
+
+    def flush(self):
+        if getattr(_echo_tls, "buf", None) is None:
+            self._real.flush()
+
+    def isatty(self):
+        return False
+
+    def writable(self):
+        return True
+
+    def readable(self):
+        return False
+
+    @property
+    def encoding(self):
+        return "utf-8"
+
+    @property
+    def errors(self):
+        return "strict"
+
+    @property
+    def closed(self):
+        return False
+
+    def fileno(self):
+        return self._real.fileno()
+
+    def __getattr__(self, name):
+        if name == "buffer" and getattr(_echo_tls, "buf", None) is not None:
+            raise AttributeError(name)  # code under test must not reach around the capture
+        return getattr(self._real, name)
+
+
+def _flush_pending(buf):
+    pend = getattr(_echo_tls, "pend", None)
+    if pend:
+        for kind in ("out", "err"):
+            if pend[kind]:
+                buf.append((kind, pend[kind]))
+        _echo_tls.pend = None
+
+
 def _patch_click():
     global _click_patched
     if _click_patched:
         return
+    import importlib
+
     import click
 
     real_echo = click.echo
@@ -70,9 +144,27 @@ def _patch_click():
         buf = getattr(_echo_tls, "buf", None)
         if buf is None:
             return real_echo(message, file=file, nl=nl, err=err, color=color)
+        if file is not None and not isinstance(file, _StreamProxy) and file not in (sys.stdout, sys.stderr, sys.__stdout__, sys.__stderr__):
+            return real_echo(message, file=file, nl=nl, err=err, color=color)  # a file the command opened itself
+        if isinstance(file, _StreamProxy):
+            err = file._kind == "err"
+        if isinstance(message, (bytes, bytearray)):
+            message = bytes(message).decode("utf-8", "replace")
         buf.append(("err" if err else "out", "" if message is None else str(message)))
 
+    # every click module holds its own reference (`from .utils import echo`): ClickException.show() uses click.exceptions.echo
     click.echo = echo
+    for modname in ("click.utils", "click.exceptions", "click.core", "click.termui", "click.decorators", "click.testing"):
+        try:
+            mod = importlib.import_module(modname)
+        except ImportError:
+            continue
+        if getattr(mod, "echo", None) is real_echo:
+            mod.echo = echo
+    if not isinstance(sys.stdout, _StreamProxy):
+        sys.stdout = _StreamProxy(sys.stdout, "out")
+    if not isinstance(sys.stderr, _StreamProxy):
+        sys.stderr = _StreamProxy(sys.stderr, "err")
     _click_patched = True
 
 
@@ -102,6 +194,7 @@ def run_cli(args: list[str], stdin_text: str | None = None) -> dict:
         except click.Abort:
             code = 1
     finally:
+        _flush_pending(buf)
         _echo_tls.buf = None
         sys.stdin = old_stdin
     return {"exit": code, "out": buf}
